@@ -14,6 +14,7 @@ from .engb import F64, RNE, SFloat, SInt
 
 KW = ["\\paperw", "\\paperh", "\\margl", "\\margr", "\\margt", "\\margb", "\\headery", "\\footery"]
 GEOM_VARS = ["w", "h", "m0", "m1", "m2", "m3", "m4", "m5"]
+PRIOR_VARS = ["n0", "n1", "n2", "n3", "n4", "n5"]
 
 
 def _bits(x):
@@ -23,8 +24,14 @@ def _bits(x):
 # ---------------------------------------------------------------------------------------------------
 # C06-O4: page break restates the geometry of the document start
 # ---------------------------------------------------------------------------------------------------
-def _geom_strings(cfg):
+def _geom_strings(cfg, prior=None):
+    """page-break block and document-start settings of cfg; when `prior` is given, a page break of an EARLIER document
+    with the same paper size but other margins is encoded first (one-step history: nothing may be remembered)"""
     from rtflite.services.encoding_service import RTFEncodingService
+    if prior is not None:
+        old = RTFEncodingService()
+        old.encode_page_break(prior, lambda: old.encode_page_margin(prior))
+        old.encode_page_settings(prior)
     svc = RTFEncodingService()
     brk = svc.encode_page_break(cfg, lambda: svc.encode_page_margin(cfg))
     start = svc.encode_page_settings(cfg)
@@ -37,50 +44,61 @@ def page_geometry(tier="quick", seed=0):
     import rtflite.rtf.syntax as m2
     import rtflite.services.encoding_service as m1
     engb.reset("fp64")
-    V = {n: z3.FP(n, F64) for n in GEOM_VARS}
+    V = {n: z3.FP(n, F64) for n in GEOM_VARS + PRIOR_VARS}
     bounds = []
     for n in ("w", "h"):
         bounds += engb.fbounds(V[n], 1.0, 60.0)
-    for n in GEOM_VARS[2:]:
+    for n in GEOM_VARS[2:] + PRIOR_VARS:
         bounds += engb.fbounds(V[n], 0.0, 10.0)
-    seeds = dict(w=8.5, h=11.0, m0=1.25, m1=1.0, m2=1.75, m3=1.25, m4=1.75, m5=1.00625)
+    seeds = dict(w=8.5, h=11.0, m0=1.25, m1=1.0, m2=1.75, m3=1.25, m4=1.75, m5=1.00625,
+                 n0=1.0, n1=1.0, n2=1.0, n3=1.0, n4=0.5, n5=0.5)
+
+    def cfgs(vals, sym=True):
+        mk = (lambda n: SFloat(vals[n], V[n])) if sym else (lambda n: vals[n])
+        cfg = NS(width=mk("w"), height=mk("h"), margin=[mk("m%d" % i) for i in range(6)], orientation="portrait")
+        prior = NS(width=mk("w"), height=mk("h"), margin=[mk("n%d" % i) for i in range(6)], orientation="portrait")
+        return cfg, prior
 
     def run(vals):
-        cfg = NS(width=SFloat(vals["w"], V["w"]), height=SFloat(vals["h"], V["h"]),
-                 margin=[SFloat(vals["m%d" % i], V["m%d" % i]) for i in range(6)], orientation="portrait")
+        cfg, prior = cfgs(vals)
         with engb.shims(m1, m2, m3, m4):
-            brk, start = _geom_strings(cfg)
+            brk, start = _geom_strings(cfg, prior)
         return {"brk": brk, "start": start}
 
     paths, stats = engb.explore(run, V, bounds, seeds)
     out = {"paths": len(paths), "queries": stats["queries"], "solver_s": stats["solver_s"], "samples": [],
            "validated": 0, "notes": []}
-    # translator validation: shadow values must equal what the plain code computes on plain floats
-    rnd = random.Random(seed)
-    vectors = [seeds, dict(w=11.0, h=8.5, m0=1.0, m1=1.0, m2=2.0, m3=1.25, m4=1.25, m5=1.25),
-               dict(w=8.27, h=11.69, m0=1.0, m1=1.0, m2=1.0, m3=1.0, m4=0.5, m5=0.5)]
-    vectors += [dict(w=rnd.uniform(1, 60), h=rnd.uniform(1, 60), **{"m%d" % i: rnd.uniform(0, 10) for i in range(6)})
-                for _ in range(200 if tier == "thorough" else 60)]
-    for vec in vectors:
-        engb.reset("fp64")
-        r = run(vec)
-        holes = list(engb.Ctx.holes)
-        plain = _geom_strings(NS(width=vec["w"], height=vec["h"], margin=[vec["m%d" % i] for i in range(6)],
-                                 orientation="portrait"))
-        for s_sym, s_plain in zip((r["brk"], r["start"]), plain):
-            rendered = engb.HOLE_RE.sub(lambda m: str(int.__int__(holes[int(m.group(1))])), s_sym)
-            if rendered != s_plain:
-                out.update(verdict="inconclusive", reason="proxy layer disagrees with the plain interpreter on %r" % (vec,))
-                return out
-            # and the z3 term evaluates to the same number
-            for m in engb.HOLE_RE.finditer(s_sym):
-                h = holes[int(m.group(1))]
-                sub = [(V[n], z3.FPVal(vec[n], F64)) for n in GEOM_VARS]
-                val = z3.simplify(z3.substitute(h.t, *sub))
-                if val.as_signed_long() != int.__int__(h):
-                    out.update(verdict="inconclusive", reason="z3 term disagrees with the shadow value on %r" % (vec,))
-                    return out
-        out["validated"] += 1
+    def validate():
+        # translator validation: shadow values must equal what the plain code computes on plain floats
+        rnd = random.Random(seed)
+        vectors = [dict(w=11.0, h=8.5, m0=1.0, m1=1.0, m2=2.0, m3=1.25, m4=1.25, m5=1.25),
+                   dict(w=8.27, h=11.69, m0=1.0, m1=1.0, m2=1.0, m3=1.0, m4=0.5, m5=0.5)]
+        vectors += [dict(w=rnd.uniform(1, 60), h=rnd.uniform(1, 60), **{"m%d" % i: rnd.uniform(0, 10) for i in range(6)})
+                    for _ in range(200 if tier == "thorough" else 60)]
+        for vec in vectors:
+            # validation vectors use prior margins EQUAL to the margins, so that a remembered block cannot masquerade as
+            # a translation error; distinct paper sizes per vector
+            vec.update({"n%d" % i: vec["m%d" % i] for i in range(6)})
+            engb.reset("fp64")
+            r = run(vec)
+            holes = list(engb.Ctx.holes)
+            plain = _geom_strings(*cfgs(vec, sym=False))
+            for s_sym, s_plain in zip((r["brk"], r["start"]), plain):
+                rendered = engb.HOLE_RE.sub(lambda m: str(int.__int__(holes[int(m.group(1))])), s_sym)
+                if rendered != s_plain:
+                    out.update(verdict="inconclusive", reason="proxy layer disagrees with the plain interpreter on %r" % (vec,))
+                    return False
+                # and the z3 term evaluates to the same number
+                for m in engb.HOLE_RE.finditer(s_sym):
+                    h = holes[int(m.group(1))]
+                    sub = [(V[n], z3.FPVal(vec[n], F64)) for n in GEOM_VARS + PRIOR_VARS]
+                    val = z3.simplify(z3.substitute(h.t, *sub))
+                    if val.as_signed_long() != int.__int__(h):
+                        out.update(verdict="inconclusive", reason="z3 term disagrees with the shadow value on %r" % (vec,))
+                        return False
+            out["validated"] += 1
+        return True
+
     for conds, res, vals, holes, unsup in paths:
         if unsup:
             out.update(verdict="inconclusive", reason="unsupported operation in traced code: " + unsup)
@@ -103,12 +121,11 @@ def page_geometry(tier="quick", seed=0):
         r, model, dt = engb.solve(bounds + pc + [z3.Or(*bad)])
         out["queries"] += 1
         out["solver_s"] += dt
-        out["samples"].append({"path": [str(c)[:80] for c in pc], "query": "exists geometry: break != start or start != round(in*1440)",
+        out["samples"].append({"path": [str(c)[:80] for c in pc], "query": "exists geometry, earlier margins: break != start or start != round(in*1440)",
                                "result": r})
         if r == "sat":
-            vals = {n: engb.model_float(model, V[n]) for n in GEOM_VARS}
-            brk, start = _geom_strings(NS(width=vals["w"], height=vals["h"], margin=[vals["m%d" % i] for i in range(6)],
-                                          orientation="portrait"))
+            vals = {n: engb.model_float(model, V[n]) for n in GEOM_VARS + PRIOR_VARS}
+            brk, start = _geom_strings(*cfgs(vals, sym=False))
             diffs = {kw: (engb.concrete_after(brk, kw), engb.concrete_after(start, kw), round(vals[names[kw]] * 1440))
                      for kw in KW}
             diffs = {k: v for k, v in diffs.items() if not (v[0] == v[1] == v[2])}
@@ -124,6 +141,8 @@ def page_geometry(tier="quick", seed=0):
         if r != "unsat":
             out.update(verdict="inconclusive", reason="solver answered %s" % r)
             return out
+    if not validate():
+        return out
     # landscape flag (two concrete orientations)
     for orient in ("portrait", "landscape"):
         _, start = _geom_strings(NS(width=8.5, height=11.0, margin=[1] * 6, orientation=orient))
@@ -140,10 +159,12 @@ def _geom_api(vals):
     import rtflite as rtf
     from . import rtfread as R
     try:
-        doc = rtf.RTFDocument(df=pl.DataFrame({"a": ["1", "2", "3"]}),
-                              rtf_page=rtf.RTFPage(width=vals["w"], height=vals["h"], nrow=2, col_width=min(vals["w"], 1.0),
-                                                   margin=[vals["m%d" % i] for i in range(6)]))
-        d = R.read(doc.rtf_encode())
+        def mk(pfx):
+            return rtf.RTFDocument(df=pl.DataFrame({"a": ["1", "2", "3"]}),
+                                   rtf_page=rtf.RTFPage(width=vals["w"], height=vals["h"], nrow=2, col_width=min(vals["w"], 1.0),
+                                                        margin=[vals["%s%d" % (pfx, i)] for i in range(6)]))
+        mk("n").rtf_encode()          # the earlier document of the one-step history
+        d = R.read(mk("m").rtf_encode())
     except Exception as e:  # noqa: BLE001
         return None
     if len(d.pages) < 2:
